@@ -46,6 +46,7 @@ type ZZSvc struct {
 	log      *zzLog
 	yield    bool
 	streamFn func(st *ZZStream)
+	gate     chan struct{}
 }
 
 func zzReplyFor(args []byte) []byte { return append([]byte{0x52}, args...) }
@@ -76,6 +77,14 @@ func (s *ZZSvc) EchoCtx(ctx context.Context, req *[]byte, res *[]byte) error {
 		vYield()
 	}
 	*res = zzReplyFor(*req)
+	s.log.leave()
+	return nil
+}
+
+// BadReply has a reply type the body codec cannot encode (the codec reports an error).
+func (s *ZZSvc) BadReply(req *[]byte, res *int) error {
+	s.log.enter("BadReply", *req)
+	*res = 7
 	s.log.leave()
 	return nil
 }
@@ -132,14 +141,38 @@ func zzUpgBytes(b byte) []byte {
 
 // zzServeScript runs the real ServeCodec over a stub socket fed with the given frames followed by
 // EOF, and returns the socket (its write log holds the responses) once ServeCodec has returned.
-func zzDecodeResponses(m *zzMsgs) []pbResponse {
+func zzDecodeResponses(m *zzMsgs) []pbResponse { return zzDecodeResponsesEnc(m, nil) }
+
+// zzDecodeResponsesEnc decodes the write log with the header encoder the server was given.
+func zzDecodeResponsesEnc(m *zzMsgs, enc Encoder) []pbResponse {
 	var out []pbResponse
 	for _, w := range m.writes {
 		var r pbResponse
-		r.Unmarshal(w)
+		if enc == nil {
+			r.Unmarshal(w)
+		} else {
+			res := enc.NewResponse()
+			res.Reset()
+			enc.NewCodec().Unmarshal(w, res)
+			r = pbResponse{Seq: res.GetSeq(), Error: res.GetError(), Reply: res.GetReply()}
+		}
 		out = append(out, r)
 	}
 	return out
+}
+
+// zzRequestEnc builds a request frame with the given header encoder (nil: built-in default).
+func zzRequestEnc(enc Encoder, seq uint64, upg []byte, method string, args []byte) []byte {
+	if enc == nil {
+		return zzRequest(seq, upg, method, args)
+	}
+	req := enc.NewRequest()
+	req.SetSeq(seq)
+	req.SetUpgrade(upg)
+	req.SetServiceMethod(method)
+	req.SetArgs(args)
+	b, _ := enc.NewCodec().Marshal(nil, req)
+	return b
 }
 
 var _ = io.EOF
